@@ -6,6 +6,13 @@
    Independently of the model's decisions it verifies in exact arithmetic that the constructed optimum is a KKT point
    of the stated program (GENBAD otherwise: the generator is wrong, not the library) and re-applies the feasibility
    clause of the property exactly (PROPFAIL).
+   For every REDUCE line (program::reduce of the library next to Eigen's fullPivLu of [A|b]^T): (a) the printed factors are a
+   factorisation (the extracted [lu_valid_b] exactly; when the factors are not exact in doubles, P M^T Q = L U within 1e-12 of
+   the summed terms and the same structural conditions), (b) the model's assembly of the reduced system from (P, L, U, rank)
+   against the library's [A'|b'] (1e-9 of the summed terms; exactly for the early return), (c) the conclusion of
+   C04_reduce_same_solutions on the implementation, by an elimination over Q coded here independently of the model: the row
+   spaces of [A|b] and of the library's [A'|b'] coincide (equivalently: same solution set and same consistency) and the
+   reduced system has exactly rank[A|b] rows (PROPFAIL reduce-...).
    Prints `MISMATCH <what> id=<id> ...`, `PROPFAIL ...`, `GENBAD ...` and a final `MODEL-DONE checked=<n> ...`.
    NB: compiled by tools/checks/c04.py after `open C04_model` (no zutil.ml.inc: Z is Zarith here). *)
 module B = Big_int_Z
@@ -77,6 +84,7 @@ let col j m = List.map (fun r -> List.nth r j) m
    disagreement is what the code does -- counted (stale), not reported *)
 let stale = ref 0
 let neg_u = ref 0
+let u_checked = ref 0
 let stale_now = ref false
 let gating = ref true
 let close what id a b tol =
@@ -86,6 +94,192 @@ let close what id a b tol =
     if !gating then
       report "MISMATCH" what id (Printf.sprintf "model=%h impl=%h |diff|=%g tol=%g" (float_of_q a) (float_of_q b) (float_of_q d) tol)
     else stale_now := true
+  end
+
+
+(* ---- program::reduce ------------------------------------------------------------------------------------------------ *)
+let rec nat_of_int n = if n <= 0 then O else S (nat_of_int (n - 1))
+let ivec s = let s = String.trim s in if s = "-" || s = "" then [] else List.map (fun t -> int_of_string (String.trim t)) (split ',' s)
+let red_total = ref 0 and red_exact = ref 0 and red_reduced = ref 0 and red_full = ref 0 and red_incons = ref 0
+let red_exact_rowspace = ref 0 and red_empty = ref 0
+let red_ranks = Hashtbl.create 16
+let zq (x : q) : Q.t = Q.make x.qnum x.qden
+
+(* reduced echelon basis with full pivoting over Q: list of (pivot column, row with pivot 1 and 0 at the other pivot columns) *)
+let echelon_basis (rows : Q.t array list) (w : int) : (int * Q.t array) list =
+  let rows = Array.of_list (List.map Array.copy rows) in
+  let nr = Array.length rows in
+  let used = Array.make nr false in
+  let out = ref [] in
+  let continue = ref true in
+  while !continue do
+    let best = ref Q.zero and bi = ref (-1) and bj = ref (-1) in
+    for i = 0 to nr - 1 do
+      if not used.(i) then
+        for j = 0 to w - 1 do
+          let a = Q.abs rows.(i).(j) in
+          if Q.gt a !best then begin best := a; bi := i; bj := j end
+        done
+    done;
+    if !bi < 0 then continue := false
+    else begin
+      let i0 = !bi and j0 = !bj in
+      used.(i0) <- true;
+      let pv = rows.(i0).(j0) in
+      rows.(i0) <- Array.map (fun x -> Q.div x pv) rows.(i0);
+      for i = 0 to nr - 1 do
+        if i <> i0 && Q.sign rows.(i).(j0) <> 0 then begin
+          let f = rows.(i).(j0) in
+          rows.(i) <- Array.mapi (fun j x -> Q.sub x (Q.mul f rows.(i0).(j))) rows.(i)
+        end
+      done;
+      out := (j0, i0) :: !out
+    end
+  done;
+  List.rev_map (fun (j0, i0) -> (j0, rows.(i0))) !out
+
+(* is v in the span of the basis?  residual of the elimination against the magnitude of the summed terms; (ok, exact) *)
+let in_span (basis : (int * Q.t array) list) (v : Q.t array) (rtol : float) : bool * bool =
+  let w = Array.length v in
+  let res = Array.copy v and mag = Array.map (fun x -> Float.abs (Q.to_float x)) v in
+  List.iter (fun (pc, row) ->
+      let f = v.(pc) in
+      if Q.sign f <> 0 then
+        for j = 0 to w - 1 do
+          res.(j) <- Q.sub res.(j) (Q.mul f row.(j));
+          mag.(j) <- mag.(j) +. Float.abs (Q.to_float f) *. Float.abs (Q.to_float row.(j))
+        done) basis;
+  let exact = Array.for_all (fun x -> Q.sign x = 0) res in
+  let scale = Array.fold_left Float.max 0.0 mag in
+  let ok = ref true in
+  Array.iteri (fun j x -> if Float.abs (Q.to_float x) > rtol *. (mag.(j) +. scale) then ok := false) res;
+  (!ok, exact)
+
+let handle_reduce line =
+  let lp = Array.of_list (split_str " | " line) in
+  if Array.length lp < 11 then failwith ("bad REDUCE line: " ^ line);
+  let hdr = List.map kv (split ' ' (String.trim lp.(0))) in
+  let id = match split ' ' (String.trim lp.(0)) with _ :: i :: _ -> i | _ -> "?" in
+  let r = int_of_string (List.assoc "r" hdr) and n = int_of_string (List.assoc "n" hdr) in
+  let fA = fmat lp.(1) and fb = fvec lp.(2) and pi = ivec lp.(3) and qi = ivec lp.(4) and fL = fmat lp.(5) and fU = fmat lp.(6) in
+  let rank = int_of_string (String.trim lp.(7)) and ret = int_of_string (String.trim lp.(8)) in
+  let fAr = fmat lp.(9) and fbr = fvec lp.(10) in
+  incr red_total;
+  let c = n + 1 in
+  let qA = qmat fA and qb = qvec fb in
+  let f = { lu_p = List.map nat_of_int pi; lu_q = List.map nat_of_int qi; lu_L = qmat fL; lu_U = qmat fU; lu_rank = nat_of_int rank } in
+  Hashtbl.replace red_ranks rank (1 + (try Hashtbl.find red_ranks rank with Not_found -> 0));
+  if List.length fA <> r || List.length fb <> r || List.exists (fun row -> List.length row <> n) fA then failwith "bad REDUCE sizes";
+  let finite = List.for_all finite_vec fAr && finite_vec fbr && List.for_all finite_vec fL && List.for_all finite_vec fU in
+  if not finite then report "MISMATCH" "reduce-not-finite" id ""
+  else if r = 0 then begin
+    incr red_empty;
+    let (retm, (am, bm)) = reduce_model qA qb (nat_of_int n) f in
+    if retm || ret <> 0 || am <> [] || bm <> [] || fAr <> [] || fbr <> [] then
+      report "MISMATCH" "reduce-empty" id (Printf.sprintf "model returns %b, library returns %d with %d rows" retm ret (List.length fAr))
+  end else begin
+    let m = stack qA qb in
+    let nr = nat_of_int r and nc = nat_of_int c in
+    let nn = min r c in
+    (* ---- (a) the oracle's answer is a factorisation of [A|b]^T ---------------------------------------------------- *)
+    let exact = lu_valid_b m nr nc f in
+    if exact then incr red_exact
+    else begin
+      let aL = Array.of_list (List.map Array.of_list fL) and aU = Array.of_list (List.map Array.of_list fU) in
+      let okshape = Array.length aL = c && Array.for_all (fun row -> Array.length row = nn) aL
+                    && Array.length aU = nn && Array.for_all (fun row -> Array.length row = r) aU in
+      if not (okshape && perm_b f.lu_p nc && perm_b f.lu_q nr && rank <= nn) then
+        report "MISMATCH" "reduce-factorisation" id (Printf.sprintf "shape/permutation/rank: L %dx? U %dx? rank=%d" (Array.length aL) (Array.length aU) rank)
+      else begin
+        let umax = Array.fold_left (fun s row -> Array.fold_left (fun s x -> Float.max s (fabs x)) s row) 0.0 aU in
+        let bad = ref "" in
+        for t = 0 to nn - 1 do
+          for j = 0 to r - 1 do
+            if j < t && aU.(t).(j) <> 0.0 then bad := Printf.sprintf "U(%d,%d)=%h below the diagonal" t j aU.(t).(j);
+            if t >= rank && fabs aU.(t).(j) > 1e-12 *. umax then bad := Printf.sprintf "U(%d,%d)=%h in a row beyond the rank %d" t j aU.(t).(j) rank
+          done;
+          if t < rank && not (fabs aU.(t).(t) > 1e-12 *. umax) then bad := Printf.sprintf "pivot U(%d,%d)=%h" t t aU.(t).(t)
+        done;
+        for k = 0 to c - 1 do
+          for t = 0 to nn - 1 do
+            if k = t && aL.(k).(t) <> 1.0 then bad := Printf.sprintf "L(%d,%d)=%h on the diagonal" k t aL.(k).(t);
+            if k < t && aL.(k).(t) <> 0.0 then bad := Printf.sprintf "L(%d,%d)=%h above the diagonal" k t aL.(k).(t)
+          done
+        done;
+        let nin = inner_dim nr nc in
+        for k = 0 to c - 1 do
+          for j = 0 to r - 1 do
+            let a = pmq_entry m f (nat_of_int k) (nat_of_int j) and b = lu_entry nin f (nat_of_int k) (nat_of_int j) in
+            let mag = ref (fabs (float_of_q a)) in
+            for t = 0 to nn - 1 do mag := !mag +. fabs (aL.(k).(t) *. aU.(t).(j)) done;
+            let d = fabs (float_of_q (a -/ b)) in
+            if d > 1e-12 *. !mag then bad := Printf.sprintf "(P M^T Q)(%d,%d)=%h but (L U)=%h" k j (float_of_q a) (float_of_q b)
+          done
+        done;
+        if !bad <> "" then report "MISMATCH" "reduce-factorisation" id !bad
+      end
+    end;
+    (* ---- (b) the model's assembly against the library's reduced system --------------------------------------------- *)
+    let (retm, (am, bm)) = reduce_model qA qb (nat_of_int n) f in
+    if rank = r then incr red_full else incr red_reduced;
+    if retm <> (ret = 1) then report "MISMATCH" "reduce-returned-flag" id (Printf.sprintf "model=%b impl=%d" retm ret);
+    if List.length am <> List.length fAr || List.length bm <> List.length fbr || List.length fAr <> List.length fbr
+       || List.exists (fun row -> List.length row <> n) fAr || List.exists (fun row -> List.length row <> n) am then
+      report "MISMATCH" "reduce-sizes" id (Printf.sprintf "model %d rows (rank=%d of %d), library %d rows / %d rhs" (List.length am) rank r (List.length fAr) (List.length fbr))
+    else begin
+      let aL = Array.of_list (List.map Array.of_list fL) and aU = Array.of_list (List.map Array.of_list fU) in
+      let pa = Array.of_list pi in
+      let mag i col =
+        if rank = r then 0.0
+        else begin
+          let s = ref 0.0 in
+          Array.iteri (fun k pk -> if pk = col then
+                          for t = 0 to nn - 1 do
+                            if k < Array.length aL && t < Array.length aL.(k) && t < Array.length aU && i < Array.length aU.(t) then
+                              s := !s +. fabs (aU.(t).(i) *. aL.(k).(t))
+                          done) pa;
+          !s
+        end in
+      let cmp what i col a b =
+        incr compared;
+        let d = qabs (a -/ b) in
+        if not (qle d (q_of_float (1e-9 *. mag i col))) then
+          report "MISMATCH" what id (Printf.sprintf "row=%d col=%d model=%h impl=%h |diff|=%g summed=%g rank=%d of %d rows" i col (float_of_q a) (float_of_q b) (float_of_q d) (mag i col) rank r) in
+      List.iteri (fun i (rm, rl) -> List.iteri (fun col (a, b) -> cmp "reduce-A" i col a (q_of_float b)) (List.combine rm rl)) (List.combine am fAr);
+      List.iteri (fun i (a, b) -> cmp "reduce-b" i n a (q_of_float b)) (List.combine bm fbr)
+    end;
+    (* ---- (c) the theorem's conclusion on the implementation: same solution set (own elimination over Q) ------------ *)
+    if List.length fAr = List.length fbr && List.for_all (fun row -> List.length row = n) fAr then begin
+      let rows_of a b = List.map2 (fun row t -> Array.of_list (List.map Q.of_float row @ [Q.of_float t])) a b in
+      let rm = rows_of fA fb and rr = rows_of fAr fbr in
+      let bm_ = echelon_basis rm c and br_ = echelon_basis rr c in
+      let exact_rank = List.length bm_ in
+      if List.exists (fun (pc, row) -> pc = n && (let z = ref true in Array.iteri (fun j x -> if j < n && Q.sign x <> 0 then z := false) row; !z)) bm_ then incr red_incons;
+      if List.length rr <> exact_rank then
+        report "PROPFAIL" "reduce-row-count" id (Printf.sprintf "rank[A|b]=%d (exact) but the reduced system has %d rows (of %d; Eigen rank=%d)" exact_rank (List.length rr) r rank);
+      let all_exact = ref true in
+      let bad = ref "" in
+      List.iteri (fun i v -> let (ok, ex) = in_span bm_ v 1e-9 in
+                   if not ex then all_exact := false;
+                   if not ok && !bad = "" then bad := Printf.sprintf "reduced row %d is not a combination of the rows of [A|b]: some solution of A x = b violates it (or the reduced system is inconsistent while A x = b is not)" i) rr;
+      List.iteri (fun i v -> let (ok, ex) = in_span br_ v 1e-9 in
+                   if not ex then all_exact := false;
+                   if not ok && !bad = "" then begin
+                     (* a witness when cheap: the particular solution of the reduced system with free variables 0 *)
+                     let x = Array.make n Q.zero in
+                     let consistent = not (List.exists (fun (pc, _) -> pc = n) br_) in
+                     if consistent then List.iter (fun (pc, row) -> x.(pc) <- row.(n)) br_;
+                     let dev = ref Q.zero in
+                     for j = 0 to n - 1 do dev := Q.add !dev (Q.mul v.(j) x.(j)) done;
+                     let dev = Q.sub !dev v.(n) in
+                     bad := Printf.sprintf "row %d of [A|b] is not implied by the reduced system%s" i
+                         (if consistent && Float.abs (Q.to_float dev) > 1e-9 then
+                            Printf.sprintf ": x=(%s) solves A'x=b' but a_%d.x-b_%d=%g" (String.concat "," (Array.to_list (Array.map (fun t -> Printf.sprintf "%g" (Q.to_float t)) x))) i i (Q.to_float dev)
+                          else "")
+                   end) rm;
+      if !bad <> "" then report "PROPFAIL" "reduce-solution-set" id !bad
+      else if !all_exact then incr red_exact_rowspace
+    end
   end
 
 let handle_solve line =
@@ -148,6 +342,14 @@ let handle_solve line =
       if B.int_of_big_int (sysdim pn) <> List.length x + List.length v then
         report "MISMATCH" "state-sizes" id (Printf.sprintf "model n+p=%d impl |x|+|v|=%d" (B.int_of_big_int (sysdim pn)) (List.length x + List.length v));
       if status = 1 && List.exists (fun t -> t < 0.0) u then incr neg_u;
+      (* the invariant of the step-length kernel (C04_step_keeps_positive): the multipliers of every returned state of the
+         inequality path are strictly positive (they start at -1/(G x0 - h) > 0 and every accepted step is s0 < 1 of the way
+         to the boundary at most) *)
+      if m > 0 then begin
+        incr u_checked;
+        if List.exists (fun t -> not (t > 0.0)) u then
+          report "MISMATCH" "u-positive" id (Printf.sprintf "status=%d min(u)=%h: a returned multiplier is not positive" status (List.fold_left Float.min Float.infinity u))
+      end;
       let r = recompute pn (q_of_float dQ) qx qu qv (q_of_float eta) (qvec rdual) (qvec rprim) !eps !eps2 in
       (* tolerances: 1e-9 of the summed magnitudes + 1e-12 (the reported numbers may be those of the last trial point
          of a failed line search, a step of rounding size away from the returned point) *)
@@ -226,7 +428,14 @@ let () =
           | Failure m -> report "MISMATCH" "driver-error" "?" m
           | Invalid_argument m -> report "MISMATCH" "driver-error" "?" (m ^ " :: " ^ String.sub line 0 (min 80 (String.length line)))
           | Not_found -> report "MISMATCH" "driver-error" "?" "Not_found")
+       else if String.length line > 7 && String.sub line 0 7 = "REDUCE " then
+         (try handle_reduce line with
+          | Failure m -> report "MISMATCH" "driver-error" "?" (m ^ " :: " ^ String.sub line 0 (min 80 (String.length line)))
+          | Invalid_argument m -> report "MISMATCH" "driver-error" "?" (m ^ " :: " ^ String.sub line 0 (min 80 (String.length line)))
+          | Not_found -> report "MISMATCH" "driver-error" "?" ("Not_found :: " ^ String.sub line 0 (min 80 (String.length line))))
      done
    with End_of_file -> ());
-  Printf.printf "MODEL-DONE checked=%d mismatches=%d compared=%d decisions=%d ambiguous=%d kkt_verified=%d stale_states=%d converged_with_negative_u=%d\n"
-    !total !mism !compared !decisions !ambiguous !kkt_ok !stale !neg_u
+  let ranks = String.concat "," (List.sort compare (Hashtbl.fold (fun k v acc -> Printf.sprintf "%d:%d" k v :: acc) red_ranks [])) in
+  Printf.printf "MODEL-DONE checked=%d mismatches=%d compared=%d decisions=%d ambiguous=%d kkt_verified=%d stale_states=%d converged_with_negative_u=%d returned_states_u_checked=%d reduce_systems_checked=%d reduce_exact_factorisations=%d reduce_rows_removed=%d reduce_full_rank=%d reduce_empty=%d reduce_inconsistent=%d reduce_exact_rowspace=%d reduce_ranks=%s\n"
+    !total !mism !compared !decisions !ambiguous !kkt_ok !stale !neg_u !u_checked !red_total !red_exact !red_reduced !red_full !red_empty !red_incons !red_exact_rowspace
+    (if ranks = "" then "-" else ranks)
